@@ -81,6 +81,16 @@ pub mod ndt {
         open spec fn div_spec(self, rhs: Array1<Fl>) -> Array1<Fl> { mk_a1(div1(a1(self), a1(rhs))) }
     }
 
+    /// `ndarray_stats::QuantileExt::max`: Err for an empty array or when some pair is unordered (NaN); else a maximal element
+    pub struct MinMaxError;
+    impl From<MinMaxError> for BoxDynError { #[verifier::external_body] fn from(e: MinMaxError) -> BoxDynError { BoxDynError } }
+    impl Array1<Fl> {
+        #[verifier::external_body]
+        pub fn max(&self) -> (r: Result<&Fl, MinMaxError>)
+            ensures (r is Ok) == (a1(*self).len() > 0 && forall |i: int| 0 <= i < a1(*self).len() ==> !(val(#[trigger] a1(*self)[i]) is NaN)),
+                r is Ok ==> (exists |k: int| 0 <= k < a1(*self).len() && a1(*self)[k] == *r->Ok_0) && forall |i: int| 0 <= i < a1(*self).len() ==> xr_le(val(#[trigger] a1(*self)[i]), val(*r->Ok_0))
+        { unimplemented!() }
+    }
     // ---- Array2<Fl> --------------------------------------------------------------------
     impl Array2<Fl> {
         #[verifier::external_body]
